@@ -90,6 +90,10 @@ func TestDiff(t *testing.T) {
 			pk.Discard("unbounded-growth")
 			return
 		}
+		if !ok && gen.MayExplode(g.Prog) {
+			pk.Discard("possible-geometric-growth(static)") // growth could not be measured by the reference run
+			return
+		}
 		if ok {
 			if tr.Feat["hazard:slot-operand"] > 0 && pk.GateOpen("slot-operand") {
 				pk.Gate("slot-operand")
